@@ -234,7 +234,7 @@ func init() {
 			for _, cd := range [][2]string{{"NONE", "NONE"}, {"LZ", "HUFFMAN"}, {"BWT", "ANS0"}} {
 				for _, ck := range []uint{0, 32} {
 					for _, j := range []uint{1, 3} {
-						p := Params{cd[0], cd[1], B, 2, ck, -1, false}
+						p := Params{cd[0], cd[1], B, 2, ck, -1, false, false}
 						for _, u := range uniforms {
 							emit(granCase{Level: "stream", P: p, Len: 5*B + 300, Jobs: j, Uniform: u})
 						}
@@ -246,7 +246,7 @@ func init() {
 					}
 				}
 				// a stream larger than the 256 KiB input buffer (several refills)
-				pbig := Params{cd[0], cd[1], 65536, 2, 32, -1, false}
+				pbig := Params{cd[0], cd[1], 65536, 2, 32, -1, false, false}
 				n := 700000
 				if cd[0] == "NONE" {
 					n = 600000
@@ -272,7 +272,7 @@ func init() {
 					}
 					if pos {
 						for _, j := range []uint{1, 2, 3} {
-							emit(granCase{Level: "readbuf", P: Params{"LZ", "HUFFMAN", B, 2, 32, -1, false}, Len: 7*B + 5, Jobs: j, RBSeq: append([]int{}, seq...)})
+							emit(granCase{Level: "readbuf", P: Params{"LZ", "HUFFMAN", B, 2, 32, -1, false, false}, Len: 7*B + 5, Jobs: j, RBSeq: append([]int{}, seq...)})
 						}
 					}
 				}
